@@ -309,6 +309,70 @@ def execute(item, only=None):
                     except InvalidRateError:
                         if (evse.current_pilot, ev_state(ev)) != before:
                             rep("%s:rejection-changed-state:after-accepted" % kind, "%s: rejected pilot %r (after accepted %r) altered pilot/EV: pilot now %r" % (cfg, bd, g, evse.current_pilot), evse.current_pilot, g, {"seq": True})
+    # ---- creeping: an accepted pilot inside the tolerance band, then a neighbour just outside it -------
+    if only is None or only.get("creep"):
+        edges = []
+        for lo, hi in ivs:
+            if math.isfinite(hi):
+                edges.append((hi, +1))
+            if math.isfinite(lo):
+                edges.append((lo, -1))
+        for b, sgn in edges:
+            p_in, p_out = b + sgn * 0.9e-3, b + sgn * 1.1e-3
+            if dist(p_in, ivs) > 1e-3 - 1e-8 or dist(p_out, ivs) < 1e-3 + 1e-8:
+                continue  # another part of the allowable set is nearby: not a clean edge
+            for first in (b, p_in):
+                for occ in (False, True):
+                    evse = build(kind, p)
+                    ev = mk_ev() if occ else None
+                    if ev:
+                        evse.plugin(ev)
+                    stats["probes"] += 1
+                    try:
+                        evse.set_pilot(first, 208, 5)
+                    except InvalidRateError:
+                        rep("%s:rejected-inside:sequence" % kind, "%s: pilot %r (inside the band at edge %r) rejected" % (cfg, first, b), False, True, {"creep": True})
+                        continue
+                    before = (evse.current_pilot, ev_state(ev))
+                    try:
+                        evse.set_pilot(p_out, 208, 5)
+                        rep("%s:accepted-outside:after-nearby-accepted" % kind, "%s: pilot %r (%.2g A outside the allowable set) accepted right after the accepted pilot %r" % (cfg, p_out, dist(p_out, ivs), first), True, False, {"creep": True})
+                    except InvalidRateError:
+                        if (evse.current_pilot, ev_state(ev)) != before:
+                            rep("%s:rejection-changed-state:after-accepted" % kind, "%s: rejected pilot %r altered pilot/EV" % (cfg, p_out), evse.current_pilot, first, {"creep": True})
+    # ---- a dumped and re-loaded EVSE is the same EVSE ------------------------------------------------
+    if only is None or only.get("json"):
+        with warnings.catch_warnings():
+            warnings.simplefilter("ignore")
+            try:
+                orig = build(kind, p)
+                twin = type(orig).from_json(orig.to_json())
+            except Exception as exc:
+                twin = None
+                if not any(not math.isfinite(v) for iv in ivs for v in iv):
+                    rep("%s:json:exception" % kind, "%s: to_json/from_json raised %r" % (cfg, exc), repr(exc), None, {"json": True})
+        if twin is not None:
+            adv_o = (float(orig.max_rate), float(orig.min_rate), [float(x) for x in orig.allowable_pilot_signals], bool(orig.is_continuous))
+            adv_t = (float(twin.max_rate), float(twin.min_rate), [float(x) for x in twin.allowable_pilot_signals], bool(twin.is_continuous))
+            stats["probes"] += 1
+            if adv_o != adv_t:
+                rep("%s:json:advertisement-changed" % kind, "%s: after a JSON round trip the EVSE advertises %s (before: %s)" % (cfg, adv_t, adv_o), adv_t, adv_o, {"json": True})
+            for b in boundaries(kind, p):
+                for o in (0.0, 1e-3 - 1e-6, -(1e-3 - 1e-6), 1e-3 + 1e-6, -(1e-3 + 1e-6), 0.5, -0.5):
+                    pilot = b + o
+                    d = dist(pilot, ivs)
+                    if abs(d - 1e-3) < 1e-8:
+                        continue
+                    stats["probes"] += 1
+                    t2 = copy.deepcopy(twin)
+                    try:
+                        t2.set_pilot(pilot, 208, 5)
+                        acc2 = True
+                    except InvalidRateError:
+                        acc2 = False
+                    if acc2 != (d <= 1e-3):
+                        rep("%s:json:%s" % (kind, "accepted-outside" if acc2 else "rejected-inside"), "%s: the re-loaded EVSE %s pilot %r (distance %.3g from the allowable set)" % (cfg, "accepts" if acc2 else "rejects", pilot, d), acc2, d <= 1e-3, {"json": True})
+                        break
     # ---- advertisements ------------------------------------------------------------
     if only is None or only.get("adv"):
         adv, flags = advertised(kind, p)
